@@ -94,9 +94,20 @@ def _body(rng, vars_, funcs, depth, lines, indent):
             if rng.random() < 0.5:
                 lines.append(f"{pad}else:")
                 _body(rng, local, funcs, depth + 1, lines, indent + 1)
-        elif r < 0.88 and depth < 2:
+        elif r < 0.84 and depth < 2:
             lines.append(f"{pad}for {nm} in {rng.choice(local) if local else '[1, 2]'}:")
             _body(rng, local + [nm], funcs, depth + 1, lines, indent + 1)
+            if rng.random() < 0.3:
+                lines.append(f"{pad}else:")
+                _body(rng, local, funcs, depth + 1, lines, indent + 1)
+        elif r < 0.88 and depth < 2:
+            lines.append(f"{pad}while {rng.choice(local) if local else 'True'}:")
+            _body(rng, local, funcs, depth + 1, lines, indent + 1)
+            if rng.random() < 0.5:
+                lines.append(f"{pad}    break")
+            if rng.random() < 0.6:
+                lines.append(f"{pad}else:")
+                _body(rng, local, funcs, depth + 1, lines, indent + 1)
         elif r < 0.94 and local:
             lines.append(f"{pad}sink({rng.choice(local)})")
         else:
